@@ -70,6 +70,8 @@ def compare(rec, m, nofault):
     # on disk the order in which a scan visits row-sets (a hash map) differs from run to run, so
     # "the first k chunks" have no stable row counts: counts are compared on the memory engine only
     counts = rec["engine"] == "mem"
+    if not counts and rec["kind"] == "panic" and rec["fired"]:
+        return bad      # which chunks a truncated stream contained is not reproducible on disk: class only
     if m["class"] == "ok":
         if m["same"] and not rec["rows_eq"]:
             bad.append("model: same rows as fault-free; impl rows differ")
